@@ -109,3 +109,25 @@ def main(tier):
         "Non-trivial = ACK frames were written and ACK-of-ACK deliveries pruned the queue."
     )
     return ctx.finish()
+
+
+def replay(path):
+    """re-execute a replay file against the current tree"""
+    import json
+    tree.activate()
+    from harness import ack_scen as A
+    d = json.load(open(path))
+    if d.get("kind") != "impl-witness":
+        print("replay names a broken obligation/correspondence, nothing to execute:", json.dumps(d.get("broken", []), default=str)[:600])
+        return 1
+    rp, sig = d["replay"], d.get("signature", {})
+    sim, obs, orc, _ = A.run_scenario(rp["seed"], rp["observe"], rp["mode"], steps=rp.get("steps", 80))
+    sim.close_taps()
+    if sig.get("oracle") == "raise":
+        hits = [f"{type(e).__name__}({e}) escaped {ep.name}.{name}" for ep in sim.endpoints for name, e in ep.raised
+                if type(e).__name__ == sig.get("exc")]
+    else:
+        hits = [t for k, t in orc.problems if k == sig.get("kind")] or [t for _, t in orc.problems]
+    p = hits[0] if hits else None
+    print("still failing: " + p if p else "no longer failing")
+    return 1 if p else 0
